@@ -144,19 +144,26 @@ Record cons_state := { c_time : Z; c_root : bytes; c_nvh : bytes }.
 
 (** [ClientState.Validate] (client_state.go): chain id not blank, trust level
     accepted by tendermint's [light.ValidateTrustLevel] (whose [num*3] wraps in
-    uint64), non-zero periods and latest height, trusting < unbonding period.
+    uint64) and — since fix d656e11 — with both fields at most MaxInt64, non-zero
+    periods and latest height, trusting < unbonding period.
     (Proof specs are non-nil in every client the harness builds; Unicode white
     space beyond ASCII is not modelled.) *)
 Definition is_space (b : byte) : bool :=
   let n := Byte.to_N b in ((9 <=? n) && (n <=? 13))%N || (n =? 32)%N.
 Definition trust_level_valid (num den : N) : bool :=
   negb ((((num * 3) mod two64N <? den) || (den <? num) || (den =? 0))%N).
-Definition client_validate (cs : client_state) : bool :=
+Definition client_validate_with (level_ok : N -> N -> bool) (cs : client_state) : bool :=
   negb (forallb is_space (cs_chain_id cs)) &&
-  trust_level_valid (cs_tl_num cs) (cs_tl_den cs) &&
+  level_ok (cs_tl_num cs) (cs_tl_den cs) &&
   negb (cs_trusting cs =? 0) && negb (cs_unbonding cs =? 0) && negb (cs_drift cs =? 0) &&
   negb (h_hgt (cs_latest cs) =? 0)%N &&
   (cs_trusting cs <? cs_unbonding cs).
+Definition client_validate : client_state -> bool :=
+  client_validate_with (fun num den => trust_level_valid num den &&
+                                       (num <=? 9223372036854775807)%N && (den <=? 9223372036854775807)%N).
+(** Validate as it was before fix d656e11 (finding tm-trust-level-int64): kept for
+    Refuted/C07_refuted.v, not part of the model of the current tree *)
+Definition client_validate_old : client_state -> bool := client_validate_with trust_level_valid.
 
 (** what a client-store value decodes to *)
 Inductive value :=
